@@ -211,6 +211,17 @@ def generate(rng, tier):
             yield {"members": [{"key": 0, "shape": [2, 3, 4], "seq": False}, {"key": 1, "shape": [0, 0, 0, 0], "seq": False, "fit": list(perm2)}],
                    "axes": [[0, 1, 2], list(perm2)], "ops": [{"kind": "slice", "index": {"tuple": its}}], "wseed": 1}
 
+    # four aligned axes, two to four of them indexed away in one item (every position pattern), the second
+    # member holding them in another order: the later drops must follow the renumbering of the earlier ones
+    perms4 = list(itertools.permutations(range(4)))
+    for perm4 in (perms4 if tier != "quick" else perms4[1::3]):
+        for bits in itertools.product([0, 1], repeat=4):
+            if sum(bits) < 2:
+                continue
+            its = [0 if b else C.sl() for b in bits]
+            yield {"members": [{"key": 0, "shape": [2, 3, 4, 2], "seq": False}, {"key": 1, "shape": [0, 0, 0, 0], "seq": False, "fit": list(perm4)}],
+                   "axes": [[0, 1, 2, 3], list(perm4)], "ops": [{"kind": "slice", "index": {"tuple": its}}], "wseed": 1}
+
 
 # ---------------------------------------------------------------- implementation
 def build_member(m, wseed):
